@@ -194,7 +194,18 @@ impl<T: RealNumber + ScalarOperand + AddAssign + SubAssign + MulAssign + DivAssi
 
     fn to_row_vector(self) -> Self::RowVector {
         let vec_size = self.nrows() * self.ncols();
-        self.into_shape(vec_size).unwrap()
+        if self.is_standard_layout() {
+            self.into_shape(vec_size).unwrap()
+        } else {
+            // into_shape would follow the memory order: read the cells in logical row-major order instead
+            let mut values = Vec::with_capacity(vec_size);
+            for r in 0..self.nrows() {
+                for c in 0..self.ncols() {
+                    values.push(self[[r, c]]);
+                }
+            }
+            Array::from_vec(values)
+        }
     }
 
     fn get(&self, row: usize, col: usize) -> T {
@@ -381,7 +392,18 @@ impl<T: RealNumber + ScalarOperand + AddAssign + SubAssign + MulAssign + DivAssi
     }
 
     fn reshape(&self, nrows: usize, ncols: usize) -> Self {
-        self.clone().into_shape((nrows, ncols)).unwrap()
+        if self.is_standard_layout() {
+            self.clone().into_shape((nrows, ncols)).unwrap()
+        } else {
+            // into_shape would follow the memory order: read the cells in logical row-major order instead
+            let mut values = Vec::with_capacity(self.nrows() * self.ncols());
+            for r in 0..self.nrows() {
+                for c in 0..self.ncols() {
+                    values.push(self[[r, c]]);
+                }
+            }
+            Array::from_shape_vec((nrows, ncols), values).unwrap()
+        }
     }
 
     fn copy_from(&mut self, other: &Self) {
